@@ -98,6 +98,14 @@ def gen_cases(tier, seed):
             for na in (1, 2, 3) if tier == "quick" else (1, 2, 3, 4, 6):
                 yield {"w": "unary", "op": "collapse", "shape": list(shp), "na": na, "orders": "all" if na <= 4 else "random",
                        "force": {"fun": fun, "dims": dims}, "cseed": int(seed) * 104729 + next(cs)}
+    # two sparse operands over one and the same set of positions (a model on the data's entries), every pair of stored orders
+    for op in BINOPS:
+        if op in ("mask", "scale_sp"):
+            continue
+        for shp in ((2, 3), (2, 2, 2)):
+            for na in (2, 3):
+                yield {"w": "binary", "op": op, "shape": list(shp), "na": na, "nb": na, "orders": "all", "same_pattern": True,
+                       "cseed": int(seed) * 104729 + next(cs)}
     # region reads through index lists that are not ascending and through downward slices, in every mode / in one mode
     for rk in ("descending-lists", "downward-slices", "downward-partial", "one-list-unsorted", "downward-with-position"):
         for shp in ((3, 3), (4, 2, 3), (5,)):
@@ -227,6 +235,8 @@ def run_case(case, ctx):
             B = _array_with(rng, shape, case["nb"])
             if rng.random() < 0.4:  # share positions / force ties so that pairing matters
                 B = np.where((A != 0) & (rng.random(shape) < 0.7), A if rng.random() < 0.5 else A * 2, B)
+        if case.get("same_pattern") and B is not None:
+            B = np.where(A != 0, rng.choice([-3.0, -1.0, 2.0, 4.0, 0.25], size=shape), 0.0)
         nb = 0 if B is None else int(np.count_nonzero(B))
     params = _params(op, rng, shape, A)
     for k_, v_ in (case.get("force") or {}).items():
